@@ -21,7 +21,7 @@ func TestC03(t *testing.T) {
 		Assumptions: []string{"the observable form of 'never released' is decided: bytes the responder wrote; no claim about computational secrecy", "scrypt cost lowered by the repository's own rpctest tag except for one production-parameter slice per run"},
 		NCases: func(tier string) int {
 			if tier == "thorough" {
-				return 8000
+				return 40000
 			}
 			return 448
 		},
